@@ -11,6 +11,8 @@
 #include <math.h>
 
 #ifdef XC_NATIVE
+#undef XC_STRLEN_LOOP
+#define XC_STRLEN_LOOP
 /* native fidelity build: contracts and ghost code vanish */
 #define __CPROVER_requires(...)
 #define __CPROVER_ensures(...)
@@ -45,10 +47,20 @@ static inline int xc_isalnum(int c) { return xc_isalpha(c) || xc_isdigit(c); }
 static inline int xc_toupper(int c) { return xc_islower(c) ? c - 'a' + 'A' : c; }
 static inline int xc_tolower(int c) { return xc_isupper(c) ? c - 'A' + 'a' : c; }
 
-/* strlen without a loop (every loop under --apply-loop-contracts needs a contract): exact for strings shorter
- * than 64 bytes, an obligation (assertion) otherwise */
+/* strlen. Default: loop free (every loop under --apply-loop-contracts needs a contract), exact for strings shorter than
+ * 64 bytes, an obligation (assertion) otherwise. A module that handles unbounded C strings defines XC_STRLEN_LOOP to the
+ * loop contract and gets the plain loop. */
 static inline size_t xc_strlen(const char *s)
 {
+#ifdef XC_STRLEN_LOOP
+  size_t n = 0;
+  while (s[n] != 0)
+    XC_STRLEN_LOOP
+  {
+    n++;
+  }
+  return n;
+#else
   if (!s[0]) return 0;
   if (!s[1]) return 1;
   if (!s[2]) return 2;
@@ -115,6 +127,7 @@ static inline size_t xc_strlen(const char *s)
   if (!s[63]) return 63;
   __CPROVER_assert(0, "xc_strlen: string longer than the 63 bytes the shim handles");
   return 64;
+#endif
 }
 
 /* std::string as seen by slices that only read it: pointer + length (owning semantics not modelled) */
@@ -126,6 +139,11 @@ static inline double xc_ldexp(double x, int e)
   __CPROVER_assert(e == 32, "xc_ldexp: only the exponent 32 is modelled");
   return x * 4294967296.0;
 }
+
+#define XC_SWAP(T, a, b) do { T xc_t = (a); (a) = (b); (b) = xc_t; } while (0)
+/* delete p / delete[] p on objects without a modelled destructor: free, counted */
+extern unsigned long g_deleted;
+static inline void xc_delete(void *p) { g_deleted++; free(p); }
 
 /* an object the extracted code only passes around */
 typedef struct xc_opaque { char xc_unused; } xc_opaque;
